@@ -15,8 +15,8 @@ struct Script { int n; int kind[MAXK]; };
 Script scripts[MAXS]; int nsrc;
 cocls::promise<void> pend[MAXS * MAXK];
 
-cocls::future<void> pending(int slot) { return [slot](cocls::promise<void> p) { pend[slot] = std::move(p); dsim::cell_set(PEND_READY + slot, 1); }; }
-void complete(int slot) { if (!dsim::cell_xchg(PEND_DONE + slot, 1)) pend[slot](); }
+cocls::future<void> pending(int slot) { return [slot](cocls::promise<void> p) { pend[slot] = std::move(p); vs::cell_set_hb(PEND_READY + slot, 1); }; }
+void complete(int slot) { if (!dsim::cell_xchg(PEND_DONE + slot, 1)) { (void)vs::cell_get_hb(PEND_READY + slot); pend[slot](); } }
 struct Guard { int s; explicit Guard(int s) : s(s) { dsim::cell_add(GUARDS + s, 1); } ~Guard() { dsim::cell_add(GUARDS + s, -1); } };
 
 cocls::generator<long> source(int s) {
